@@ -19,7 +19,8 @@
 EXTENDS Tens, TLC
 
 CONSTANTS Draws,         \* data draws per regression configuration
-          PlsDraws       \* data draws per PLS configuration
+          PlsDraws,      \* data draws per PLS configuration
+          FullCross      \* TRUE: sample counts x regularisations fully crossed (thorough); FALSE: paired (quick)
 
 VARIABLE cfg
 \* exact factorised-tensor semantics of C03, used for the theorems about the quantised contraction
@@ -99,7 +100,7 @@ MaxMag(in, first) ==
     IN  (IF a > b THEN a ELSE b) \div S + 1
 DenseTol(K, mx, terms) == terms * 4 * K * Pow(mx, K - 1) + 1
 \* every intermediate product fits MulQ6's operand range
-ChainRepresentable(K, mx) == Pow(mx, K) * (S \div 1000) <= MulLimit \div 1000
+ChainRepresentable(K, mx) == mx <= 6 /\ Pow(mx, K) * (S \div 1000) <= MulLimit \div 1000      \* (mx <= 6 first: Pow itself must not overflow)
 FactorsOK(in, shape, kind) ==
     /\ DOMAIN in.fs = 1..Len(shape)
     /\ \A k \in 1..Len(shape) : IsTens(in.fs[k]) /\ Len(in.fs[k].shape) = 2 /\ in.fs[k].shape[1] = shape[k]
@@ -118,12 +119,25 @@ NSamples == {6, 9, 12}
 Regs == {1, 10, 100}                         \* reg_W in tenths: 0.1, 1, 10
 MaxX == 3
 TuckerRanks(xs, id) == [k \in 1..Len(xs) |-> CASE id = 1 -> 1 [] id = 2 -> 2 [] id = 3 -> IF k % 2 = 1 THEN 2 ELSE 1]
+\* constructor options as configuration: both exits of the fitting loops (convergence test / iteration cap)
+\*   CPRegressor, TuckerRegressor:  tight (tol 1e-9, 40 sweeps)   loose (tol 1e-2, 40)   cap (tol 1e-9, 2 sweeps)
+\*   CP_PLSR:  default (tol 1e-9, 200)   tol2 (1e-2, 200)   tol1 (1e-1, 200)   cap (1e-9, 2 inner iterations)
+RegOpts == {"tight", "loose", "cap"}
+PlsOpts == {"default", "tol2", "tol1", "cap"}
+MaxIter(opt) == CASE opt = "cap" -> 2 [] opt \in {"tight", "loose"} -> 40 [] OTHER -> 200
+\* the forms in which new data is handed to predict / transform (values are the same small integers)
+RegDataForms == {"float32", "int64", "int32", "uint8", "fortran", "strided"}     \* besides float64, C order
+PlsDataForms == {"fortran", "strided"}          \* CP_PLSR centres the data in place: floating-point arrays only
+NRegPairs == IF FullCross THEN NSamples \X Regs ELSE {<<6, 1>>, <<9, 10>>, <<12, 100>>}
+PlsN(ny, nc) == IF FullCross THEN NSamples ELSE {<<6, 9, 12>>[((ny + nc) % 3) + 1]}
 ValidReg(c) ==
     /\ c.model \in {"cp", "tucker"} /\ c.n \in NSamples /\ c.xs \in SampleShapes /\ c.reg \in Regs /\ c.k \in 1..Draws
+    /\ c.opt \in RegOpts
     /\ IF c.model = "cp" THEN c.ys \in TargetShapes /\ c.rank \in 1..3 /\ c.ranks = <<>>
        ELSE c.ys = <<>> /\ c.rank \in 1..3 /\ c.ranks = TuckerRanks(c.xs, c.rank)
 WeightShape(c) == c.xs \o c.ys
 ValidPls(c) == /\ c.n \in NSamples /\ c.xs \in SampleShapes /\ c.ny \in 0..3 /\ c.nc \in 1..3 /\ c.k \in 1..PlsDraws
+               /\ c.opt \in PlsOpts
 YCols(c) == IF c.ny = 0 THEN 1 ELSE c.ny      \* ny = 0: Y given as a vector
 
 -----------------------------------------------------------------------------
@@ -167,14 +181,14 @@ NoCfg == [kind |-> "none"]
 Seeds == {[kind |-> "seed", fam |-> f, xs |-> xs] : f \in {"cp", "tucker", "pls", "thm"}, xs \in SampleShapes}
 CfgsOf(sd) ==
     CASE sd.fam = "cp" ->
-            {[kind |-> "reg", model |-> "cp", n |-> n, xs |-> sd.xs, ys |-> ys, rank |-> r, ranks |-> <<>>, reg |-> g, k |-> k] :
-                n \in NSamples, ys \in TargetShapes, r \in 1..3, g \in Regs, k \in 1..Draws}
+            {[kind |-> "reg", model |-> "cp", n |-> nr[1], xs |-> sd.xs, ys |-> ys, rank |-> r, ranks |-> <<>>, reg |-> nr[2], opt |-> o, k |-> k] :
+                nr \in NRegPairs, ys \in TargetShapes, r \in 1..3, o \in RegOpts, k \in 1..Draws}
       [] sd.fam = "tucker" ->
-            {[kind |-> "reg", model |-> "tucker", n |-> n, xs |-> sd.xs, ys |-> <<>>, rank |-> r, ranks |-> TuckerRanks(sd.xs, r), reg |-> g, k |-> k] :
-                n \in NSamples, r \in 1..3, g \in Regs, k \in 1..Draws}
+            {[kind |-> "reg", model |-> "tucker", n |-> nr[1], xs |-> sd.xs, ys |-> <<>>, rank |-> r, ranks |-> TuckerRanks(sd.xs, r), reg |-> nr[2], opt |-> o, k |-> k] :
+                nr \in NRegPairs, r \in 1..3, o \in RegOpts, k \in 1..Draws}
       [] sd.fam = "pls" ->
-            {[kind |-> "pls", n |-> n, xs |-> sd.xs, ny |-> ny, nc |-> nc, k |-> k] :
-                n \in NSamples, ny \in 0..3, nc \in 1..3, k \in 1..PlsDraws}
+            UNION {{[kind |-> "pls", n |-> n, xs |-> sd.xs, ny |-> ny, nc |-> nc, opt |-> o, k |-> k] :
+                        n \in PlsN(ny, nc), o \in PlsOpts, k \in 1..PlsDraws} : ny \in 0..3, nc \in 1..3}
       [] sd.fam = "thm" ->
             {[kind |-> "thm", what |-> "predict", xs |-> sd.xs, ys |-> ys, a |-> a, p |-> p] :
                 ys \in TargetShapes, a \in 1..3, p \in Permutations(1..3)}
